@@ -323,6 +323,19 @@ theorem getTransactionS_pairKey (raw : Cid → Bool) (cache : Cache) (es : List 
       CacheOk es pairKey (getTransactionS pairKey raw cache es r sig).2 :=
   getTransactionS_eq pairKey raw cache es r sig (keyOk_pair es hu) hc hs
 
+/-- **"whichever other epochs are loaded alongside", caches included**: a server with the epochs `es'` and a server with
+fewer epochs `es ⊆ es'`, each with its own shared cache in ANY sound state (any request history) and any raw-object
+cache, give the same getBlock answer for every slot of an epoch loaded in both — with the repaired cache key and no
+assumption about CIDs shared between epochs. -/
+theorem routing_independent_through_cache (raw raw' : Cid → Bool) (S : SortFn) (σ : Sched) (cache cache' : Cache)
+    (es es' : List Epoch) (ep : Epoch) (slot : Nat)
+    (hu : UniqueNums es) (hu' : UniqueNums es') (hsub : ∀ e ∈ es, e ∈ es') (hep : ep ∈ es) (h : epochOf slot = ep.num)
+    (hc : CacheOk es pairKey cache) (hc' : CacheOk es' pairKey cache') (hs : ∀ e ∈ es', StoreOk e) :
+    (getBlockS pairKey raw' S σ cache' es' slot).1 = (getBlockS pairKey raw S σ cache es slot).1 := by
+  rw [(getBlockS_pairKey raw' S σ cache' es' slot hu' hc' hs).1,
+    (getBlockS_pairKey raw S σ cache es slot hu hc (fun e he => hs e (hsub e he))).1]
+  exact (routing_independent_of_other_epochs S σ es es' ep slot hu hu' hsub hep h).1
+
 /-- with the CID-only key of the pinned tree the same holds ONLY under the explicit hypothesis that no CID is stored
 at different offsets in two loaded epochs -/
 theorem getTransactionS_cidKey_needs_no_shared_cid (raw : Cid → Bool) (cache : Cache) (es : List Epoch)
